@@ -169,4 +169,5 @@ def queries(g, L, known, grid, rng=None, nb_limit=None, times=None):
     for n in present:
         _call(E, "get_node_snapshots", NoT, None, n, 0, "times", lambda: g.get_node_snapshots(cn(n)), L)
     _call(E, "dn_is_empty", NoT, None, 0, 0, "bool", lambda: dn.is_empty(g), L)
+    _call(E, "dn_get_node_attributes", NoT, None, 0, 0, "attrs", lambda: list((n, {"lab": a}) for n, a in dn.get_node_attributes(g, "lab").items()), L)
     return E
